@@ -147,7 +147,29 @@ def extract(repo):
                     break
             for n in names:
                 sites.append({"arm": "|".join(ops), "helper": n, "fallible": is_fallible(n), "checked": checked})
-    return sites, {"cons_infallible": cons_infallible, "helpers_registered": len(reg)}
+    # every place where a helper (or a macro that generates helpers) stores an error must also clear ctx.is_native:
+    # that flag is what the generated code tests
+    clear = []
+    units = dict(bodies)
+    for m in re.finditer(r'macro_rules!\s*(\w+)\s*\{', jit):
+        i = m.end() - 1
+        d, k = 0, i
+        while k < len(jit):
+            if jit[k] == '{':
+                d += 1
+            elif jit[k] == '}':
+                d -= 1
+                if d == 0:
+                    break
+            k += 1
+        units["macro " + m.group(1)] = jit[i:k + 1]
+    STORE = re.compile(r'result\s*=\s*Some\(\s*Err')
+    CLEAR = re.compile(r'is_native\s*=\s*false')
+    for name, body in sorted(units.items()):
+        n_err = len(STORE.findall(body))
+        if n_err:
+            clear.append({"unit": name, "stores": n_err, "clears": len(CLEAR.findall(body))})
+    return sites, {"cons_infallible": cons_infallible, "helpers_registered": len(reg), "clear": clear}
 
 
 def coq_text(sites, facts):
@@ -160,4 +182,8 @@ def coq_text(sites, facts):
             "(* arm of the code generator, helper called, helper can report an error through ctx.result (an unknown\n"
             "   helper counts as fallible), the call is followed by check_deopt *)\n"
             "Definition sites : list (string * string * bool * bool) := [\n" + ";\n".join(rows) + "\n].\n"
-            "Definition cons_infallible : bool := %s.\n" % b(facts["cons_infallible"]))
+            "Definition cons_infallible : bool := %s.\n" % b(facts["cons_infallible"]) +
+            "(* function / macro of jit.rs that stores an error in ctx.result, number of such stores, number of\n"
+            "   `is_native = false` in the same body *)\n"
+            "Definition error_stores : list (string * nat * nat) := [\n" +
+            ";\n".join("  (\"%s\"%%string, %d, %d)" % (c["unit"], c["stores"], c["clears"]) for c in facts["clear"]) + "\n].\n")
